@@ -32,6 +32,8 @@ func (p *Prog) normalizeOverlay() (map[string][]byte, []string) {
 		uses []int // file offsets of identifiers that denote the value variable
 	}
 	byFile := map[string][]job{}
+	litVar := map[*ast.RangeStmt]*types.Var{}
+	litOf := map[*ast.RangeStmt]*ast.CompositeLit{}
 	for _, f := range p.Funcs {
 		if f.Body == nil {
 			continue
@@ -50,6 +52,26 @@ func (p *Prog) normalizeOverlay() (map[string][]byte, []string) {
 				return true
 			}
 			lit, ok := ast.Unparen(rs.X).(*ast.CompositeLit)
+			if !ok {
+				// a local that is bound once to such a literal and only ranged over
+				if lv, isV := identObj(info, ast.Unparen(rs.X)).(*types.Var); isV && !lv.IsField() {
+					if d := p.singleDef(f, lv); d != nil {
+						if cl, isCl := ast.Unparen(d).(*ast.CompositeLit); isCl {
+							uses := 0
+							ast.Inspect(f.Body, func(y ast.Node) bool {
+								if id, ok := y.(*ast.Ident); ok && info.Uses[id] == lv {
+									uses++
+								}
+								return true
+							})
+							if uses == 1 {
+								lit, ok = cl, true
+								litVar[rs] = lv
+							}
+						}
+					}
+				}
+			}
 			if !ok || len(lit.Elts) == 0 || len(lit.Elts) > 8 {
 				return true
 			}
@@ -113,6 +135,7 @@ func (p *Prog) normalizeOverlay() (map[string][]byte, []string) {
 			if !okBody {
 				return true
 			}
+			litOf[rs] = lit
 			byFile[fname] = append(byFile[fname], job{rs, f, uses})
 			return true
 		})
@@ -153,7 +176,20 @@ func (p *Prog) normalizeOverlay() (map[string][]byte, []string) {
 				if !ok || fset.Position(rs.Pos()).Offset != off || c.Index() < 0 {
 					return true
 				}
-				lit := ast.Unparen(rs.X).(*ast.CompositeLit)
+				lit, isLit := ast.Unparen(rs.X).(*ast.CompositeLit)
+				if !isLit {
+					// the literal bound to the ranged local: locate it by offset
+					want := p.Fset.Position(litOf[j.rs].Pos()).Offset
+					ast.Inspect(file, func(y ast.Node) bool {
+						if cl, ok := y.(*ast.CompositeLit); ok && fset.Position(cl.Pos()).Offset == want {
+							lit = cl
+						}
+						return true
+					})
+					if lit == nil {
+						return false
+					}
+				}
 				var blocks []ast.Stmt
 				for _, e := range lit.Elts {
 					body := cloneBlockSubst(fset, rs.Body, useAt, e)
@@ -169,9 +205,31 @@ func (p *Prog) normalizeOverlay() (map[string][]byte, []string) {
 				done = true
 				return false
 			}, nil)
+			if done && litVar[j.rs] != nil {
+				// the local that held the literal is no longer used
+				want := p.Fset.Position(litOf[j.rs].Pos()).Offset
+				ast.Inspect(file, func(y ast.Node) bool {
+					switch st := y.(type) {
+					case *ast.AssignStmt:
+						if len(st.Rhs) == 1 && len(st.Lhs) == 1 {
+							if cl, ok := ast.Unparen(st.Rhs[0]).(*ast.CompositeLit); ok && fset.Position(cl.Pos()).Offset == want {
+								st.Lhs[0] = ast.NewIdent("_")
+								st.Tok = token.ASSIGN
+							}
+						}
+					case *ast.ValueSpec:
+						if len(st.Values) == 1 && len(st.Names) == 1 {
+							if cl, ok := ast.Unparen(st.Values[0]).(*ast.CompositeLit); ok && fset.Position(cl.Pos()).Offset == want {
+								st.Names[0] = ast.NewIdent("_")
+							}
+						}
+					}
+					return true
+				})
+			}
 			if done {
 				changed = true
-				notes = append(notes, fmt.Sprintf("unrolled range over a %d-element literal in %s at %s", len(ast.Unparen(j.rs.X).(*ast.CompositeLit).Elts), j.f.Name, p.Pos(j.rs)))
+				notes = append(notes, fmt.Sprintf("unrolled range over a %d-element literal in %s at %s", len(litOf[j.rs].Elts), j.f.Name, p.Pos(j.rs)))
 			}
 		}
 		if !changed {
